@@ -1,4 +1,6 @@
 import DiscretModel.Lemmas.Lock
+import DiscretModel.Lemmas.LockFair
+import DiscretModel.Model.LockOld
 import DiscretModel.Lemmas.LockConn
 /-
 C20 — Room synchronisation locks: exclusive, bounded, never lost.
@@ -148,14 +150,116 @@ theorem C20_head_of_line_partial (s : State) (p : Peer) (q : List Peer) (req : R
     ∃ s' r, acquire s = (s', some (req.ch, r)) :=
   acquire_head_of_line hq hl hlive hfree
 
-/-! ### "every requested room is eventually granted as long as granted rooms are released" is FALSE
+/-! ### fairness of the queue (code as fixed): bounded bypass, hence no starvation
 
-A waiting peer that is scanned while its rooms are locked, in a pass that ends with a grant to a
-peer scanned after it, is re-queued at the FRONT of the queue (`room_locking_service.rs:111-113`):
-every peer that arrived later and was not scanned overtakes it. The schedule below returns to the
-same state, so it can be repeated for ever: every granted room is released, room 1 is released and
-granted again in every round, and peer 1 — live receiver, waiting for room 1 since before — never
-gets it. -/
+`rank q p` is the number of peers visited before `p`. A waiting peer never loses its place, and
+it gains one every time a released room it wants (live receiver) goes to somebody else: it can be
+overtaken at most `rank` times — fewer than there are peers in the queue — before it is at the
+back of the queue, where `C20_head_of_line_partial` serves it first. -/
+
+/-- **C20 (a waiting peer keeps its place).** -/
+theorem C20_waiting_peer_keeps_its_place (max : Nat) (ops : List Op) (op : Op) (p : Peer) (req : Req) :
+    let s := (run (init max) ops).1
+    (p, req) ∈ s.reqs → p ∈ (step s op).1.queue → (∀ g ∈ (step s op).2, g.1 ≠ req.ch) →
+    (∀ rooms ch, op ≠ .request p rooms ch) →
+    rank (step s op).1.queue p ≤ rank s.queue p := by
+  intro s hm hq hnot hop
+  exact step_rank_le (run_inv (inv_init max) ops) op hm hq hnot hop
+
+/-- **C20 (being overtaken costs the others a place).** -/
+theorem C20_bypass_gains_a_place (max : Nat) (ops : List Op) (r0 : Room) (p : Peer) (req : Req)
+    (ch : Ch) (r : Room) :
+    let s := (run (init max) ops).1
+    r0 ∈ s.locked → (p, req) ∈ s.reqs → p ∈ (step s (.unlock r0)).1.queue →
+    (ch, r) ∈ (step s (.unlock r0)).2 → req.ch ≠ ch → req.ch ∉ s.dead → r ∈ req.rooms →
+    rank (step s (.unlock r0)).1.queue p < rank s.queue p := by
+  intro s hr0 hm hq hg hch hlive hw
+  exact unlock_bypass_rank_lt (run_inv (inv_init max) ops) hr0 hm hq hg hch hlive hw
+
+/-- peer `p` waits on channel `c` throughout `ops`: it has a pending request before every step,
+    does not re-request, and nothing is granted on its channel -/
+def Waits (c : Ch) : State → List Op → Peer → Prop
+  | s, [], p => ∃ req, (p, req) ∈ s.reqs ∧ req.ch = c
+  | s, op :: ops, p =>
+    (∃ req, (p, req) ∈ s.reqs ∧ req.ch = c) ∧ (∀ rooms ch, op ≠ .request p rooms ch) ∧
+      (∀ g ∈ (step s op).2, g.1 ≠ c) ∧ Waits c (step s op).1 ops p
+
+/-- a release of a room that `p` wants, with a live receiver, served somebody else -/
+def Bypassed (s : State) (op : Op) (p : Peer) : Prop :=
+  ∃ r0 req ch r, op = .unlock r0 ∧ r0 ∈ s.locked ∧ (p, req) ∈ s.reqs ∧ req.ch ∉ s.dead ∧
+    (ch, r) ∈ (step s op).2 ∧ req.ch ≠ ch ∧ r ∈ req.rooms
+
+open Classical in
+/-- how many times `p` is bypassed along `ops` -/
+noncomputable def bypassCount : State → List Op → Peer → Nat
+  | _, [], _ => 0
+  | s, op :: ops, p => (if Bypassed s op p then 1 else 0) + bypassCount (step s op).1 ops p
+
+theorem waits_head {c : Ch} {s : State} {ops : List Op} {p : Peer} (h : Waits c s ops p) :
+    ∃ req, (p, req) ∈ s.reqs ∧ req.ch = c := by
+  cases ops with
+  | nil => exact h
+  | cons op ops => exact h.1
+
+theorem bounded_bypass {max : Nat} {c : Ch} {s : State} (hi : Inv max s) (ops : List Op) (p : Peer)
+    (hw : Waits c s ops p) :
+    bypassCount s ops p + rank (run s ops).1.queue p ≤ rank s.queue p := by
+  induction ops generalizing s with
+  | nil => simp [bypassCount, run]
+  | cons op ops ih =>
+    obtain ⟨⟨req, hm, hc⟩, hop, hnot, hrest⟩ := hw
+    have hi1 := step_inv hi op
+    obtain ⟨req1, hm1, _⟩ := waits_head hrest
+    have hq1 : p ∈ (step s op).1.queue := mem_queue_of_mem_reqs hi1 hm1
+    have hle := step_rank_le hi op hm hq1 (by intro g hg; rw [hc]; exact hnot g hg) hop
+    have hih := ih hi1 hrest
+    simp only [bypassCount, run]
+    split
+    · rename_i hb
+      obtain ⟨r0, req', ch, r, e, hr0, hm', hlive, hg, hch, hwant⟩ := hb
+      subst e
+      have : req' = req := mem_uniq hi.keysNodup hm' hm
+      subst this
+      have hlt := unlock_bypass_rank_lt hi hr0 hm' hq1 hg hch hlive hwant
+      omega
+    · omega
+
+/-- **C20 (eventually granted: bounded bypass).** Along any continuation of any reachable state,
+    a peer that keeps waiting is overtaken — a released room it wants, with a live receiver,
+    granted to somebody else — at most as many times as there were peers before it in the queue,
+    i.e. fewer times than the queue is long. Together with `C20_no_missed_wakeup`,
+    `C20_unlock_progress` and `C20_head_of_line_partial` this is what "every requested room is
+    eventually granted as long as granted rooms are released" means for the service. -/
+theorem C20_bounded_bypass (max : Nat) (pre ops : List Op) (p : Peer) (c : Ch) :
+    let s := (run (init max) pre).1
+    Waits c s ops p → bypassCount s ops p ≤ rank s.queue p ∧ rank s.queue p < s.queue.length := by
+  intro s hw
+  have hi : Inv max s := run_inv (inv_init max) pre
+  have hb := bounded_bypass hi ops p hw
+  refine ⟨by omega, ?_⟩
+  obtain ⟨req, hm, _⟩ := waits_head hw
+  have hq : p ∈ s.queue := mem_queue_of_mem_reqs hi hm
+  clear hb hw
+  generalize s.queue = q at hq
+  induction q with
+  | nil => cases hq
+  | cons x t ih =>
+    simp only [rank, List.length_cons]
+    split
+    · omega
+    · rename_i hne
+      rcases List.mem_cons.mp hq with e | e
+      · exact absurd e.symm hne
+      · have := ih e; omega
+
+/-! ### starvation in the code BEFORE `fix: a waiting peer keeps its place in the lock queue`
+
+(`Model/LockOld.lean`.) A waiting peer that was visited while its rooms were locked, in a pass that
+ended with a grant to a peer visited after it, was re-queued at the FRONT of the queue: every peer
+that arrived later overtook it. The schedule below returns to the same state, so it could be
+repeated for ever: every granted room is released, room 1 is released and granted again in every
+round, and peer 1 — live receiver, waiting for room 1 since before — never got it. Replayed on the
+real actor of that time (`corpus/C20/starvation-requeue-front.ops`). -/
 
 def starvePre : List Op :=
   [.request 3 [1] 3, .request 4 [2] 4,          -- rooms 1 and 2 are held (limit 2)
@@ -170,24 +274,32 @@ def cycles : Nat → List Op
   | 0 => []
   | n + 1 => starveCycle ++ cycles n
 
-theorem C20_breaks_starvation_round :
-    let s := (run (init 2) starvePre).1
-    (1, ({ rooms := [1], ch := 1 } : Req)) ∈ s.reqs ∧ 1 ∉ s.dead ∧
-    (run s starveCycle).1 = s ∧
-    (run s starveCycle).2 = [[], [], [(2, 2)], [(3, 1)]] := by decide
+theorem runOld_append (s : State) (a b : List Op) :
+    LockOld.run s (a ++ b) =
+      ((LockOld.run (LockOld.run s a).1 b).1, (LockOld.run s a).2 ++ (LockOld.run (LockOld.run s a).1 b).2) := by
+  induction a generalizing s with
+  | nil => simp [LockOld.run]
+  | cons op a ih => simp only [List.cons_append, LockOld.run, ih, List.cons_append]
 
-/-- for EVERY number of rounds: same state again, and no grant ever goes to peer 1's channel -/
+theorem C20_breaks_starvation_round :
+    let s := (LockOld.run (init 2) starvePre).1
+    (1, ({ rooms := [1], ch := 1 } : Req)) ∈ s.reqs ∧ 1 ∉ s.dead ∧
+    (LockOld.run s starveCycle).1 = s ∧
+    (LockOld.run s starveCycle).2 = [[], [], [(2, 2)], [(3, 1)]] := by decide
+
+/-- (code before the fix) for EVERY number of rounds: same state again, and no grant ever goes to
+    peer 1's channel -/
 theorem C20_breaks_starvation (n : Nat) :
-    let s := (run (init 2) starvePre).1
-    (run s (cycles n)).1 = s ∧ ∀ g ∈ (run s (cycles n)).2, ∀ x ∈ g, x.1 ≠ 1 := by
+    let s := (LockOld.run (init 2) starvePre).1
+    (LockOld.run s (cycles n)).1 = s ∧ ∀ g ∈ (LockOld.run s (cycles n)).2, ∀ x ∈ g, x.1 ≠ 1 := by
   intro s
   induction n with
-  | zero => simp [cycles, run]
+  | zero => simp [cycles, LockOld.run]
   | succ n ih =>
     have h := C20_breaks_starvation_round
     simp only at h
     obtain ⟨_, _, h3, h4⟩ := h
-    simp only [cycles, run_append]
+    simp only [cycles, runOld_append]
     rw [h3]
     refine ⟨ih.1, ?_⟩
     intro g hg
@@ -197,6 +309,10 @@ theorem C20_breaks_starvation (n : Nat) :
       simp only [List.mem_cons, List.not_mem_nil, or_false] at hg
       rcases hg with hg | hg | hg | hg <;> subst hg <;> simp at hx <;> subst hx <;> decide
     · exact ih.2 g hg
+
+/-- the same schedule on the code as fixed: peer 1 is served as soon as room 1 is released -/
+theorem C20_starvation_fixed :
+    (run (init 2) starvePre).2 = [[(3, 1)], [(4, 2)], [], [], [], [(2, 2)], [(1, 1)]] := by decide
 
 /-! ### non-vacuity: concrete reachable states meeting the hypotheses -/
 
